@@ -699,6 +699,7 @@ def run_shard(spec):
     acc = Acc()
     for i in range(spec["n"]):
         case = gen_case(rng, f"{spec['seed'] % 46656:x}x{i:x}")
+        case["hist"] = [spec["seed"], i]
         run_case(acc, case)
         if i < 2:
             acc.samples.append({"order": case["order"], "split": case["split"],
@@ -714,4 +715,13 @@ def replay(pid, case):
     hs.pauseTiming()
     acc = Acc()
     run_case(acc, case)
+    if not acc.violations and "hist" in case:
+        # not reproducible alone: repeat it behind the robots that were built before it in its shard (process-wide state in
+        # the library: caches keyed by id(), class-level containers)
+        seed, idx = case["hist"]
+        rng = random.Random(seed)
+        for i in range(idx):
+            run_case(Acc(), gen_case(rng, f"{seed % 46656:x}x{i:x}"))
+        acc = Acc()
+        run_case(acc, case)
     return acc.violations[0] if acc.violations else None
